@@ -68,6 +68,13 @@ pub fn fill_cells(rng: &mut Rng, ws: &mut umya_spreadsheet::Worksheet, ncells: u
                     3 => {
                         o.count("formula.cached-blank", 1);
                     }
+                    4 if rng.chance(1, 4) => {
+                        // a text result that reads like an error value (e.g. the result of ="#N/A") stays text
+                        cell.set_formula_result_default("");
+                        cell.set_value_string(*rng.pick(&["#N/A", "#DIV/0!", "#n/a", "#REF!", "#VALUE!x"]));
+                        cell.set_formula(f);
+                        o.count("formula.cached-text-like-error", 1);
+                    }
                     4 => {
                         let t = format!("res{} <&> é😀", uid);
                         cell.set_formula_result_default(t);
@@ -81,6 +88,14 @@ pub fn fill_cells(rng: &mut Rng, ws: &mut umya_spreadsheet::Worksheet, ncells: u
                 o.count("kind.formula", 1);
             }
         }
+    }
+    // strings that differ only in their kind of line break are different strings
+    if ncells > 0 && rng.chance(1, 5) {
+        *uid += 1;
+        for (j, br) in ["\r\n", "\n", "\r"].iter().enumerate() {
+            ws.get_cell_mut((40 + j as u32, 7)).set_value_string(format!("line{}{}break", uid, br));
+        }
+        o.count("strings-differing-in-line-break-only", 1);
     }
     // merged ranges over existing cells: every cell keeps what it holds, whether it is the corner of the range or not
     if ncells > 0 && rng.chance(1, 4) {
